@@ -7,6 +7,7 @@ CONSTANTS
   WFull = 2
   RecvMax = 1
   Hows = {"close", "atexit"}
+  MaxClose = 1
 PROPERTY Dispatch
 PROPERTY CloseTerminates
 PROPERTY ThreadExits
